@@ -8,6 +8,16 @@
 #include <nano/datasource.h>
 #include <nano/generator/elemwise_identity.h>
 
+#include <nano/function.h>
+#include <nano/linear.h>
+#include <nano/loss.h>
+#include <nano/lsearch0.h>
+#include <nano/lsearchk.h>
+#include <nano/solver.h>
+#include <nano/splitter.h>
+#include <nano/tuner.h>
+#include <nano/wlearner.h>
+
 #include <cmath>
 #include <limits>
 
@@ -266,6 +276,22 @@ private:
     int                                              m_value_mode;
     std::vector<std::vector<std::vector<double>>>    m_stored;
 };
+
+// complete the one-time registration of all 11 factories outside the simulation (see worker_main's warm-up)
+inline void warm_factories()
+{
+    (void)datasource_t::all().ids();
+    (void)generator_t::all().ids();
+    (void)function_t::all().ids();
+    (void)loss_t::all().ids();
+    (void)lsearch0_t::all().ids();
+    (void)lsearchk_t::all().ids();
+    (void)solver_t::all().ids();
+    (void)splitter_t::all().ids();
+    (void)tuner_t::all().ids();
+    (void)wlearner_t::all().ids();
+    (void)linear_t::all().ids();
+}
 
 inline void add_identity_generators(dataset_t& dataset)
 {
